@@ -247,6 +247,10 @@ def public(c):
 def run(ctx):
     ctx.source_hash("sigpy/mri/app.py", "sigpy/alg.py")
     proof_ok = ctx.prove("Prop_C17.v")
+    # tie by translation (DESIGN 2.8): gen/Gen_espirit.v is regenerated from mri/app.py (translate_all job "espirit", with job "alg"
+    # for the gen_pm_* it applies) and compiled; its lemmas state generated EspiritCalib == hand model (model/Espirit.v, EspiritCalib.v)
+    from tools import translate_espirit
+    tie_broken = translate_espirit.tie(ctx)    # obligations "translate:sigpy/mri/app.py (...)", "tie:generated EspiritCalib == hand model"
     sp = core.import_sigpy()
     rng = ctx.rng
     n = ctx.n(100, 900)
@@ -354,8 +358,8 @@ def run(ctx):
                       {"kind": "correspondence", "broken": "corr:" + d["what"], "case": public(d["case"]), "voxel": d["voxel"],
                        "expected": "the Coq model fed with the implementation's own AHA[r] / iterate reproduces its result",
                        "observed": d["expr"][:1500]}, found_input=False, signature=sig)
-    if (not proof_ok or not corr_ok) and not ctx.violations:
-        broken = getattr(ctx, "broken_proof", {"theorem": "corr:coq-run", "log": "; ".join(ctx.notes)[-1500:]})
+    if (not proof_ok or not corr_ok or tie_broken) and not ctx.violations:
+        broken = getattr(ctx, "broken_proof", tie_broken or {"theorem": "corr:coq-run", "log": "; ".join(ctx.notes)[-1500:]})
         ctx.violation("proof obligation no longer checks: %s" % broken.get("theorem"), {"kind": "proof", "broken": broken},
                       found_input=False, signature="C17:proof")
     ctx.trusted += TRUSTED
@@ -385,7 +389,9 @@ def replay(obj):
 TRUSTED = [
     "Coq 8.16.1 kernel + vm_compute (no native_compute, no extraction); Coq Reals axioms as printed by Print Assumptions",
     "hand model coq/model/Espirit.v of PowerMethod._update with EspiritCalib's norm_func and of EspiritCalib._output at one voxel "
-    "(one term for PrimFloat and for R), tied by this run's correspondence on the implementation's own AHA[r] and iterates",
+    "(one term for PrimFloat and for R), tied by this run's correspondence on the implementation's own AHA[r] and iterates, and by "
+    "translation: tools/translate_espirit.py regenerates it (and coq/model/EspiritCalib.v, the data flow of __init__ around the SVD / "
+    "IFFT oracles) from the source text; trusted there: the per-voxel readings of numpy listed in notes/translate_espirit.md",
     "numpy broadcasting of `AHA @ x`, sum over the coil axis, `.T[0]`, and multiplication by a boolean array as modelled (per voxel)",
     "the theorems are over R; complex64 rounding is not modelled (norm 1 is checked to 1e-5 on the implementation); "
     "in floating point 0 * nan = nan, so 'exactly zero' needs a finite iterate (checked: all outputs finite)",
@@ -396,4 +402,4 @@ VALIDATED = ["eigenvalue <= 1: proved only from the hypothesis that AHA[r] is an
              "calibration kernels, image-domain Gram scaled by N/kw^d) is one is checked numerically (eig <= 1 + 1e-4 on every run)",
              "agreement with the rss-normalised true maps (5e-2, interior object voxels, fully sampled synthesised data, "
              "calib_width <= shape, thresh <= 0.03, kernel 3..6, crop 0.8..0.95, 4..8 coils)",
-             "construction of AHA (calibration matrix, SVD truncation, kernels to image domain) is outside the model"]
+             "construction of AHA (calibration matrix, SVD truncation, kernels to image domain): only its data flow is modelled (coq/model/EspiritCalib.v, tied by translation); SVD, IFFT, resize, array_to_blocks, reshape are operations without laws there"]
